@@ -64,6 +64,8 @@ func Dominates(c *core.Ctx, rule string, fn *ssa.Function, g NamedGuard, sinks [
 	}
 	pass := ir.PassEdges(fn, g.G)
 	r := opt.run(ir.NewReach(fn).CutEdges(pass).CutEdges(opt.cuts()))
+	var lifted []liftedCall
+	liftedDone := false
 	for _, s := range sinks {
 		if s.BoolVal != nil {
 			// `return <cond>`: returning want is equivalent to the guard passing
@@ -78,8 +80,42 @@ func Dominates(c *core.Ctx, rule string, fn *ssa.Function, g NamedGuard, sinks [
 			if ok, passTrue := g.G(ir.Cond{V: v, Neg: false}); ok && (passTrue != neg) == s.BoolWant {
 				continue
 			}
+			// `return helper(...)`: the helper answers `want` only on exits that passed the guard
+			if cl, isCall := v.(*ssa.Call); isCall {
+				if h := moduleHelper(cl, fn); h != nil {
+					bad, good := guardExits(h, cl, g.G, 0)
+					if good > 0 {
+						wantVal := kTrue
+						if s.BoolWant == neg {
+							wantVal = kFalse
+						}
+						allOther := true
+						for _, e := range bad {
+							if len(e.known) == 0 || e.known[0] == wantVal || e.known[0] == kUnknown {
+								allOther = false
+							}
+						}
+						if allOther {
+							continue
+						}
+					}
+				}
+			}
 		}
 		if r.SinkReachable(s) {
+			// the guard may sit in a helper function: summarise helper calls and retry
+			if !liftedDone {
+				lifted, liftedDone = liftGuard(fn, g.G, 0), true
+			}
+			if len(lifted) > 0 {
+				bad, r2 := sinkReachableLifted(fn, lifted,
+					func() *ir.Reach { return ir.NewReach(fn).CutEdges(pass).CutEdges(opt.cuts()) },
+					func(x *ir.Reach) *ir.Reach { return opt.run(x) }, s)
+				if !bad {
+					continue
+				}
+				r = r2
+			}
 			what := "guard absent in function"
 			if len(pass) > 0 {
 				what = fmt.Sprintf("%d guard test(s) present but a path avoids them", len(pass))
@@ -112,8 +148,29 @@ func MustPassCall(c *core.Ctx, rule string, fn *ssa.Function, callDesc string, p
 		n++
 	}
 	opt.run(r)
+	var lifted []liftedCall
+	liftedDone := false
 	for _, s := range sinks {
 		if r.SinkReachable(s) {
+			// the obligatory call may sit in a helper function
+			if !liftedDone {
+				lifted, liftedDone = liftCall(fn, pred, 0), true
+			}
+			if len(lifted) > 0 {
+				bad, r2 := sinkReachableLifted(fn, lifted,
+					func() *ir.Reach {
+						x := ir.NewReach(fn).CutEdges(opt.cuts())
+						for _, call := range ir.Calls(fn, pred) {
+							x.Barrier[call] = true
+						}
+						return x
+					},
+					func(x *ir.Reach) *ir.Reach { return opt.run(x) }, s)
+				if !bad {
+					continue
+				}
+				r = r2
+			}
 			c.Violate(rule, fn, construct, c.P.Rel(s.Instr.Pos()),
 				fmt.Sprintf("%s reachable without a prior call of %s (%d such call(s) in function); path %s", s.Note, callDesc, n, r.Path(c.P, s.Instr)))
 			return false
